@@ -36,6 +36,56 @@ pub fn holds(name: &str, _sc: &Scenario, _pre: &World, out: &EvalOut, _vio: &Vio
             }
             false
         }
+        // Two (or more) upstream jobs were MERGED into one multi-output job: the job named in the
+        // violation consumes, from one upstream, outputs whose records are spread over several old names
+        // (`a!!!j` holds a, `b!!!j` holds b, the upstream is now a:::b) - no single old record holds
+        // everything it consumes, so whichever the renamed-upstream lookup picks, the comparison misses a
+        // consumed output and answers "altered". (Where ONE old record does hold everything - the case
+        // repaired by 2bd089b - this class does not hold and the violation is reported.)
+        "consumed-outputs-spread-over-several-old-names" => {
+            let gv = &out.gv;
+            let named = _vio.msg.split(" (").next().unwrap_or("");
+            let j = match gv.idx.get(named) {
+                Some(j) => *j,
+                None => return false,
+            };
+            // directly: the named job is such a consumer; indirectly: the named job is an Ephemeral that was
+            // run for (an Ephemeral that was run for ...) such a consumer
+            fn direct(out: &EvalOut, j: usize) -> bool {
+                let gv = &out.gv;
+                let job = &gv.jobs[j];
+                for (u, consumed) in job.ups.iter() {
+                    let up = &gv.jobs[*u];
+                    if out.h_in.contains_key(&format!("{}!!!{}", up.id, job.id)) {
+                        continue;
+                    }
+                    let suffix = format!("!!!{}", job.id);
+                    let mut candidates: Vec<Vec<&str>> = Vec::new();
+                    for k in out.h_in.keys() {
+                        if k.ends_with(&suffix) && k.len() > suffix.len() {
+                            let x = &k[..k.len() - suffix.len()];
+                            let parts: Vec<&str> = x.split(ID_SEP).collect();
+                            if parts.iter().any(|p| up.parts.iter().any(|q| q == p)) {
+                                candidates.push(parts);
+                            }
+                        }
+                    }
+                    if candidates.len() >= 2 && !candidates.iter().any(|c| consumed.iter().all(|p| c.contains(&p.as_str()))) {
+                        return true;
+                    }
+                }
+                false
+            }
+            fn holds_for(out: &EvalOut, j: usize, depth: usize) -> bool {
+                if direct(out, j) {
+                    return true;
+                }
+                let job = &out.gv.jobs[j];
+                // (the consumer itself need not have been started: the Ephemeral it asked for may have failed)
+                depth < 40 && job.kind == Kind::Ephemeral && job.downs.iter().any(|d| holds_for(out, *d, depth + 1))
+            }
+            holds_for(out, j, 0)
+        }
         _ => false,
     }
 }
